@@ -33,6 +33,8 @@ NonDecreasing(q) == \A i \in 2..Len(q) : q[i - 1].r <= q[i].r
 Structural(m) == OfTopic(m) /\ m.instOk /\ NamedSetUsable(m) /\ CountOk(m) /\ NonDecreasing(m.entries)
 
 SenderExists(m) == m.snd >= 0 /\ m.snd < N
+(* every share / key is judged on its own, against the identity it is attached to: a genuine
+   token of another identity of the same message (kind "swap") is not genuine for this one *)
 ShareGenuine(e) == e.k = "valid"
 
 (* the key stored in the receiver's database for the identity has exactly these bytes *)
